@@ -1,3 +1,390 @@
 package main
 
-func runParseDir() {}
+// C34 -- replay of specs/cfg/ParseDir.tla cases into parser.ParseFSDir / parser.ParseFSEntry over an
+// in-memory fsx.FileSystem that can hold sub-directories.
+//
+// Alarm (what the statement pins): which entries are included, IsClass / IsNormalGox for every
+// included file, IsProj where the class-kind function said ok, the package name a file is grouped
+// under, Files vs GoFiles (documented meaning of ParseGoAsGoPlus), the filter (doc comment of
+// ParseFSDir), ParseFSEntry's flags and its unknown-kind decision.
+// Drift (incidental): IsProj when the class-kind function answered (true, false), the error value,
+// behaviour on sub-directories beyond "not included".
+
+import (
+	"fmt"
+	"io/fs"
+	"path"
+	"sort"
+	"strings"
+	"syscall"
+	"time"
+
+	"github.com/goplus/xgo/parser"
+	"github.com/goplus/xgo/token"
+
+	"verifharness/hlib"
+)
+
+type pdEntry struct {
+	Pre  string `json:"pre"`
+	Ext  string `json:"ext"`
+	Kind string `json:"kind"`
+}
+
+func (e pdEntry) name() string { return e.Pre + e.Ext }
+
+type pdOut struct {
+	Idx    int    `json:"idx"`
+	Pkg    string `json:"pkg"`
+	Gofile bool   `json:"gofile"`
+	Proj   bool   `json:"proj"`
+	Class  bool   `json:"class"`
+	Ngox   bool   `json:"ngox"`
+}
+
+type pdEnt struct {
+	Ok    bool `json:"ok"`
+	Proj  bool `json:"proj"`
+	Class bool `json:"class"`
+	Ngox  bool `json:"ngox"`
+	Dir   bool `json:"dir"`
+}
+
+type pdCase struct {
+	Dir   []pdEntry `json:"dir"`
+	Ck    string    `json:"ck"`
+	Mode  string    `json:"mode"`
+	Filt  int       `json:"filt"`
+	Out   []pdOut   `json:"out"`
+	Ckok  []bool    `json:"ckok"`
+	Entry []pdEnt   `json:"entry"`
+}
+
+// ---------------------------------------------------------------- in-memory file system
+
+type vInfo struct {
+	name  string
+	isDir bool
+	size  int
+}
+
+func (p *vInfo) Name() string { return p.name }
+func (p *vInfo) Size() int64  { return int64(p.size) }
+func (p *vInfo) Mode() fs.FileMode {
+	if p.isDir {
+		return fs.ModeDir | 0755
+	}
+	return 0644
+}
+func (p *vInfo) Type() fs.FileMode          { return p.Mode().Type() }
+func (p *vInfo) ModTime() time.Time         { return time.Unix(1700000000, 0) }
+func (p *vInfo) IsDir() bool                { return p.isDir }
+func (p *vInfo) Sys() any                   { return nil }
+func (p *vInfo) Info() (fs.FileInfo, error) { return p, nil }
+
+type vFS struct {
+	root    string
+	listing []fs.DirEntry
+	files   map[string]string // full path -> content
+	dirs    map[string]bool   // full path of sub-directories
+	reads   []string
+}
+
+func (v *vFS) ReadDir(dirname string) ([]fs.DirEntry, error) {
+	if path.Clean(dirname) != v.root {
+		return nil, &fs.PathError{Op: "readdir", Path: dirname, Err: fs.ErrNotExist}
+	}
+	return v.listing, nil
+}
+
+func (v *vFS) ReadFile(filename string) ([]byte, error) {
+	filename = path.Clean(filename)
+	v.reads = append(v.reads, filename)
+	if s, ok := v.files[filename]; ok {
+		return []byte(s), nil
+	}
+	if v.dirs[filename] {
+		return nil, &fs.PathError{Op: "read", Path: filename, Err: syscall.EISDIR}
+	}
+	return nil, &fs.PathError{Op: "open", Path: filename, Err: fs.ErrNotExist}
+}
+
+func (v *vFS) Join(elem ...string) string   { return path.Join(elem...) }
+func (v *vFS) Base(filename string) string  { return path.Base(filename) }
+func (v *vFS) Abs(p string) (string, error) { return p, nil }
+
+func pdContent(kind string) string {
+	switch kind {
+	case "main":
+		return "package main\n\nfunc f() {}\n"
+	case "foo":
+		return "package foo\n\nfunc f() {}\n"
+	}
+	return "func f() {}\n" // no package clause
+}
+
+func pdClassKind(ck string) func(string) (bool, bool) {
+	switch ck {
+	case "default":
+		return nil
+	case "none":
+		return func(string) (bool, bool) { return false, false }
+	case "gox":
+		return func(f string) (bool, bool) { return false, path.Ext(f) == ".gox" }
+	case "yap":
+		return func(f string) (bool, bool) {
+			if strings.HasSuffix(f, "_yap.gox") {
+				return f == "main_yap.gox", true
+			}
+			return false, false
+		}
+	case "txtproj":
+		return func(f string) (bool, bool) { ok := path.Ext(f) == ".txt"; return ok, ok }
+	case "txtwork":
+		return func(f string) (bool, bool) { return false, path.Ext(f) == ".txt" }
+	case "projnotok":
+		return func(string) (bool, bool) { return true, false }
+	}
+	panic("unknown class kind " + ck)
+}
+
+type pdObs struct {
+	pkg               string
+	gofile            bool
+	proj, class, ngox bool
+	namePkg           string // File.Name.Name
+}
+
+type pdVerdict struct{ v, sig, detail string }
+
+func (a *pdVerdict) viol(sig, d string) {
+	if a.v != "viol" {
+		a.v, a.sig, a.detail = "viol", sig, d
+	}
+}
+func (a *pdVerdict) drift(sig, d string) {
+	if a.v == "ok" {
+		a.v, a.sig, a.detail = "drift", sig, d
+	}
+}
+
+// why the model excludes entry j (structural reason used in signatures)
+func pdWhyExcluded(c *pdCase, j int) string {
+	e := c.Dir[j]
+	switch {
+	case e.Kind == "dir":
+		return "directory"
+	case e.Pre == "_a":
+		return "underscore"
+	case path.Ext(e.name()) == ".go" && e.Pre == "gop_autogen":
+		return "autogen-go"
+	case !c.Entry[j].Ok:
+		return "unknown-ext:" + path.Ext(e.name())
+	case c.Filt == j+1:
+		return "filtered"
+	}
+	return "?"
+}
+
+func pdKindOf(c *pdCase, j int) string {
+	e := c.Dir[j]
+	s := path.Ext(e.name())
+	if e.Ext == "_yap.gox" {
+		s = "_yap.gox"
+	}
+	if c.Ckok[j] {
+		s += ":ck-ok"
+	}
+	return s
+}
+
+func runParseDir() {
+	const root = "/d"
+	hlib.ForEachCase(func(idx int, c *pdCase) {
+		out := &pdVerdict{v: "ok"}
+		var names []string
+		for _, e := range c.Dir {
+			names = append(names, e.name()+"("+e.Kind+")")
+		}
+		in := map[string]any{"dir": names, "ck": c.Ck, "mode": c.Mode, "filt": c.Filt}
+		want := map[int]pdOut{}
+		for _, o := range c.Out {
+			want[o.Idx-1] = o
+		}
+		var mode parser.Mode
+		if c.Mode == "goasxgo" {
+			mode = parser.ParseGoAsGoPlus
+		}
+		rejected := ""
+		if c.Filt > 0 {
+			rejected = c.Dir[c.Filt-1].name()
+		}
+		conf := parser.Config{ClassKind: pdClassKind(c.Ck), Mode: mode}
+		if c.Filt > 0 {
+			conf.Filter = func(fi fs.FileInfo) bool { return fi.Name() != rejected }
+		}
+		mkfs := func(reverse bool) *vFS {
+			v := &vFS{root: root, files: map[string]string{}, dirs: map[string]bool{}}
+			for _, e := range c.Dir {
+				full := path.Join(root, e.name())
+				if e.Kind == "dir" {
+					v.dirs[full] = true
+					v.listing = append(v.listing, &vInfo{name: e.name(), isDir: true})
+				} else {
+					v.files[full] = pdContent(e.Kind)
+					v.listing = append(v.listing, &vInfo{name: e.name(), size: len(v.files[full])})
+				}
+			}
+			sort.Slice(v.listing, func(a, b int) bool {
+				if reverse {
+					return v.listing[a].Name() > v.listing[b].Name()
+				}
+				return v.listing[a].Name() < v.listing[b].Name()
+			})
+			return v
+		}
+		for _, reverse := range []bool{false, true} {
+			func() {
+				tag := map[bool]string{false: "sorted", true: "reversed"}[reverse]
+				defer func() {
+					if e := recover(); e != nil {
+						out.viol("panic:ParseFSDir", fmt.Sprintf("%s listing: %v", tag, e))
+					}
+				}()
+				v := mkfs(reverse)
+				fset := token.NewFileSet()
+				pkgs, first := parser.ParseFSDir(fset, v, root, conf)
+				got := map[string]pdObs{}
+				dup := ""
+				for pname, pkg := range pkgs {
+					if pkg.Name != pname {
+						out.viol("grouping:package-name-field", fmt.Sprintf("map key %q holds package named %q", pname, pkg.Name))
+					}
+					for fn, f := range pkg.Files {
+						b := path.Base(fn)
+						if _, seen := got[b]; seen {
+							dup = b
+						}
+						o := pdObs{pkg: pname, proj: f.IsProj, class: f.IsClass, ngox: f.IsNormalGox}
+						if f.Name != nil {
+							o.namePkg = f.Name.Name
+						}
+						got[b] = o
+					}
+					for fn, f := range pkg.GoFiles {
+						b := path.Base(fn)
+						if _, seen := got[b]; seen {
+							dup = b
+						}
+						got[b] = pdObs{pkg: pname, gofile: true, namePkg: f.Name.Name}
+					}
+				}
+				if dup != "" {
+					out.viol("grouping:file-twice", fmt.Sprintf("%s listing: %s appears in two places", tag, dup))
+				}
+				for j, e := range c.Dir {
+					w, inc := want[j]
+					g, ginc := got[e.name()]
+					where := fmt.Sprintf("%s listing, %s ck=%s mode=%s filt=%d", tag, e.name()+"("+e.Kind+")", c.Ck, c.Mode, c.Filt)
+					switch {
+					case inc && !ginc:
+						out.viol("wrongly-excluded:"+pdKindOf(c, j), fmt.Sprintf("%s: not in the result (first error: %v)", where, first))
+					case !inc && ginc:
+						out.viol("wrongly-included:"+pdWhyExcluded(c, j), fmt.Sprintf("%s: in the result as %+v", where, g))
+					case inc && ginc:
+						if g.pkg != w.Pkg || g.namePkg != w.Pkg {
+							out.viol("grouping:wrong-package", fmt.Sprintf("%s: under %q (file says %q), want %q", where, g.pkg, g.namePkg, w.Pkg))
+						}
+						if g.gofile != w.Gofile {
+							out.viol(fmt.Sprintf("wrong-map:gofiles=%v:%s", g.gofile, c.Mode), where)
+						}
+						if g.class != w.Class {
+							out.viol(fmt.Sprintf("flag:IsClass=%v:%s", g.class, pdKindOf(c, j)), where)
+						}
+						if g.ngox != w.Ngox {
+							out.viol(fmt.Sprintf("flag:IsNormalGox=%v:%s", g.ngox, pdKindOf(c, j)), where)
+						}
+						if g.proj != w.Proj {
+							if c.Ckok[j] || path.Ext(e.name()) != ".gox" {
+								out.viol(fmt.Sprintf("flag:IsProj=%v:%s", g.proj, pdKindOf(c, j)), where)
+							} else {
+								out.drift("isproj-without-ok", where)
+							}
+						}
+					}
+				}
+				if len(got) > len(c.Dir) {
+					out.viol("wrongly-included:not-in-listing", fmt.Sprintf("%d files in the result, %d entries", len(got), len(c.Dir)))
+				}
+				if first != nil {
+					out.drift("first-error", fmt.Sprintf("%s listing: %v", tag, first))
+				}
+			}()
+		}
+		// ParseFSEntry on every file of the directory
+		for j, e := range c.Dir {
+			if e.Kind == "dir" {
+				continue
+			}
+			func() {
+				where := fmt.Sprintf("ParseFSEntry %s ck=%s mode=%s", e.name(), c.Ck, c.Mode)
+				defer func() {
+					if p := recover(); p != nil {
+						out.viol("panic:ParseFSEntry", fmt.Sprintf("%s: %v", where, p))
+					}
+				}()
+				v := mkfs(false)
+				f, err := parser.ParseFSEntry(token.NewFileSet(), v, path.Join(root, e.name()), nil,
+					parser.Config{ClassKind: pdClassKind(c.Ck), Mode: mode})
+				w := c.Entry[j]
+				switch {
+				case !w.Ok && err == nil:
+					out.viol("entry:unknown-accepted:"+pdKindOf(c, j), where)
+				case !w.Ok && err != parser.ErrUnknownFileKind:
+					out.drift("entry:unknown-other-error", fmt.Sprintf("%s: %v", where, err))
+				case w.Ok && (err != nil || f == nil):
+					out.viol("entry:known-rejected:"+pdKindOf(c, j), fmt.Sprintf("%s: %v", where, err))
+				case w.Ok:
+					if f.IsClass != w.Class {
+						out.viol(fmt.Sprintf("entry:flag:IsClass=%v:%s", f.IsClass, pdKindOf(c, j)), where)
+					}
+					if f.IsNormalGox != w.Ngox {
+						out.viol(fmt.Sprintf("entry:flag:IsNormalGox=%v:%s", f.IsNormalGox, pdKindOf(c, j)), where)
+					}
+					if f.IsProj != w.Proj {
+						if c.Ckok[j] || path.Ext(e.name()) != ".gox" {
+							out.viol(fmt.Sprintf("entry:flag:IsProj=%v:%s", f.IsProj, pdKindOf(c, j)), where)
+						} else {
+							out.drift("entry:isproj-without-ok", where)
+						}
+					}
+					wantPkg := e.Kind
+					if wantPkg == "impl" {
+						wantPkg = "main"
+					}
+					if f.Name == nil || f.Name.Name != wantPkg {
+						out.viol("entry:package-name", where)
+					}
+				}
+			}()
+		}
+		var nt []string
+		for j, e := range c.Dir {
+			k := e.Pre + pdKindOf(c, j) + "/" + e.Kind
+			if _, inc := want[j]; inc {
+				k += "+"
+			}
+			nt = append(nt, k)
+		}
+		filt := "nil"
+		if c.Filt > 0 {
+			filt = fmt.Sprintf("rej%d", c.Filt)
+		}
+		res := hlib.Result{Idx: idx, V: out.v, Sig: out.sig, Detail: out.detail, Input: in,
+			NT: c.Ck + "|" + c.Mode + "|" + filt + "|" + strings.Join(nt, ",")}
+		if out.v == "ok" {
+			res.Detail = fmt.Sprintf("included %d of %d: %+v", len(c.Out), len(c.Dir), c.Out)
+		}
+		hlib.Emit(res)
+	})
+}
